@@ -227,11 +227,13 @@ structure Child where
 
 inductive ChildOp where
   | setMask (m : List Bool)   -- the parent's filter changes
+  | setData (l : List Val)    -- the parent's feature data change (recomputed / replaced)
   | rejuvenate                -- `_events.clear()`: a new `ChildScalar` is created on next access
   | query                     -- `child[feat].min()/max()/mean()`
 
 def childStep (c : Child) : ChildOp → Child × Option Summ
   | .setMask m => ({ c with mask := m }, none)
+  | .setData l => ({ c with parent := l }, none)
   | .rejuvenate => ({ c with arr := none, cache := none }, none)
   | .query =>
     let a := c.arr.getD (sel c.mask c.parent)
